@@ -266,6 +266,14 @@ def check(prop, tier, runs=None, workers=None, start=0, evidence=True):
         vv = res["violation"] or v
         path = write_replay(prop, small, vv, shrunk_from={"run_index": i, "ops": eng.trace_size(tr)[0],
                                                           "candidates_tried": tried})
+        # a replay file must reproduce in a fresh interpreter; say so loudly if it does not
+        import subprocess
+        rp = subprocess.run([sys.executable, os.path.join(core.VERIF_DIR, "xsim_main.py"), "replay", path],
+                            env=dict(os.environ, PYTHONHASHSEED="random"), stdout=subprocess.PIPE, stderr=subprocess.STDOUT,
+                            timeout=CHUNK_WALL_LIMIT)
+        if rp.returncode != 1:
+            print("HARNESS-WARNING: %s does not reproduce in a fresh interpreter (rc=%d): the violation depends on state "
+                  "outside the trace" % (path, rp.returncode))
         replay_paths.append(path)
         viol_lines.append("VIOLATION property=%s replay=%s" % (prop, path))
         print("violation run_index=%d clause=%r site=%r detail=%r (shrunk %s -> %s)" % (
